@@ -95,18 +95,20 @@ def function_ast(f):
                 cands.append(n)
     if len(cands) > 1 and code.co_name == '<lambda>':
         # several lambdas on one line: match by argument names and compiled bytecode
-        best = []
-        for n in cands:
-            names = tuple(a.arg for a in n.args.posonlyargs + n.args.args)
-            if names == code.co_varnames[:code.co_argcount]:
+        byname = [n for n in cands if tuple(a.arg for a in n.args.posonlyargs + n.args.args) == code.co_varnames[:code.co_argcount]]
+        if len(byname) == 1:
+            cands = byname
+        else:
+            best = []
+            for n in byname:
                 try:
                     c2 = compile(ast.Expression(n), fn, 'eval').co_consts[0]
                     if c2.co_code == code.co_code and c2.co_names == code.co_names:
                         best.append(n)
                 except Exception:
                     pass
-        if len(best) >= 1:
-            cands = best[:1]
+            if len(best) >= 1:
+                cands = best[:1]
     if len(cands) != 1:
         raise Unsupported("cannot locate source of %s (%d candidates)" % (getattr(f, '__qualname__', f), len(cands)))
     _src_cache[key] = (cands[0], fn)
@@ -563,6 +565,8 @@ class Interp:
             recv = getattr(f, '__self__', None)
             if isinstance(recv, (bytes, str)) and not isinstance(recv, type):
                 return M.cell_method(self, lift(recv), f.__name__, args, kw)
+            if type(recv) is dict and f.__name__ == 'get':
+                return M.native_dict_get(self, recv, args[0], args[1] if len(args) > 1 else None)
             if isinstance(recv, int) and f.__name__ == 'to_bytes':
                 return M.int_to_bytes_model(self, [recv] + list(args), kw)
             raise Unsupported("native %r with symbolic arguments" % (getattr(f, '__name__', f),))
